@@ -49,6 +49,40 @@ def scale(tier, quick, thorough):
     return thorough if tier == "thorough" else quick
 
 
+# ---- Engine B ("vfuzz"): harness/fuzzseq.cpp, native ASan+UBSan build driven by libFuzzer (coverage guided), one thread.
+# property -> container families of the fuzz target; runs per worker process are case counts (never time limits)
+FUZZ = {
+    "C04": ["q_ms", "q_ram", "q_nik"],
+    "C05": ["q_nikb", "q_vyu"],
+    "C06": ["q_kk", "q_kb"],
+    "C07": ["q_ms", "q_ram", "q_nik", "q_nikb", "q_vyu", "q_kk", "q_kb"],
+    "C08": ["hm_map", "hm_map_memo", "hm_set"],
+    "C09": ["hm_map", "hm_map_memo", "hm_set"],
+    "C10": ["vyu_ii", "vyu_ss", "vyu_sc"],
+    "C11": ["vyu_ii", "vyu_ss", "vyu_sc"],
+    "C12": ["deque_grow", "deque_fixed"],
+    "C14": ["seqlock"],
+}
+FUZZ_FAMILY_INDEX = ["vyu_ii", "vyu_ss", "vyu_sc", "hm_map", "hm_map_memo", "hm_set", "deque_grow", "deque_fixed", "q_ms", "q_ram", "q_nik", "q_nikb",
+                     "q_vyu", "q_kk", "q_kb", "seqlock"]
+FUZZ_RULE = ("Engine B (vfuzz): libFuzzer mutates byte strings that are decoded into (family, configuration, operation sequence) for the property's "
+             "container families; every operation's result is compared with a reference model (std::map / std::deque / byte image), with a full "
+             "scan, per-key lookups and an element census at the end, under AddressSanitizer + UBSan with the library's assertions enabled. "
+             "A case is non-trivial if it executed at least 3 successful insertions and 1 successful removal (maps: and reached 4 stored keys; "
+             "growing deque: grew at a non-zero index offset; fixed deque: more than 2 x capacity pushes; seqlock: at least 3 operations). "
+             "corpus_units counts the coverage-distinct inputs libFuzzer kept.")
+
+
+def fuzz_job(prop, tier):
+    if prop not in FUZZ:
+        return None
+    fast = prop in ("C12", "C14")  # deque / seqlock cases cost a few microseconds, map cases ~100
+    queues = prop in ("C04", "C05", "C06", "C07")
+    quick = 200000 if fast else 80000 if queues else 40000
+    thorough = 6000000 if fast else 3000000 if queues else 1500000
+    return {"families": FUZZ[prop], "workers": scale(tier, 4, 16), "runs": scale(tier, quick, thorough), "max_len": scale(tier, 192, 384)}
+
+
 def c01_jobs(tier):
     n = scale(tier, 160000, 6000000)
     tag = scale(tier, "quick", "")
